@@ -86,6 +86,17 @@ func maybePanic(ctx reflect.Value) {
 	}
 }
 
+// ctxErr: the field functions that can return an error behave like resolvers doing I/O - they give up when their
+// context is done (a filter / sort step must therefore hand every field function a live context)
+func ctxErr(ctx reflect.Value) reflect.Value {
+	if c, ok := ctx.Interface().(context.Context); ok {
+		if err := c.Err(); err != nil {
+			return reflect.ValueOf(&err).Elem()
+		}
+	}
+	return reflect.Zero(errorType)
+}
+
 var impls = []string{"plain", "exp", "batch", "fb"}
 var textAttrs = []string{"t0", "t1", "t2"}
 var sortAttrs = []string{"n0", "n1", "s0", "u0", "f0"}
@@ -117,7 +128,7 @@ func attrOpts(itemT reflect.Type, attr string, isSort bool) []schemabuilder.Fiel
 	oneE := reflect.MakeFunc(reflect.FuncOf([]reflect.Type{contextType, itemT}, []reflect.Type{valT, errorType}, false),
 		func(in []reflect.Value) []reflect.Value {
 			maybePanic(in[0])
-			return []reflect.Value{get(in[1]), reflect.Zero(errorType)}
+			return []reflect.Value{get(in[1]), ctxErr(in[0])}
 		}).Interface()
 	inT, outT := reflect.MapOf(indexType, itemT), reflect.MapOf(indexType, valT)
 	many := reflect.MakeFunc(reflect.FuncOf([]reflect.Type{contextType, inT}, []reflect.Type{outT, errorType}, false),
@@ -127,17 +138,17 @@ func attrOpts(itemT reflect.Type, attr string, isSort bool) []schemabuilder.Fiel
 			for it := in[1].MapRange(); it.Next(); {
 				out.SetMapIndex(it.Key(), get(it.Value()))
 			}
-			return []reflect.Value{out, reflect.Zero(errorType)}
+			return []reflect.Value{out, ctxErr(in[0])}
 		}).Interface()
 	if isSort {
 		return []schemabuilder.FieldFuncOption{
-			schemabuilder.SortField(attr+"_plain", one),
+			schemabuilder.SortField(attr+"_plain", oneE),
 			schemabuilder.SortField(attr+"_exp", one, schemabuilder.Expensive),
 			schemabuilder.BatchSortField(attr+"_batch", many),
 			schemabuilder.BatchSortFieldWithFallback(attr+"_fb", many, oneE, useBatch)}
 	}
 	return []schemabuilder.FieldFuncOption{
-		schemabuilder.FilterField(attr+"_plain", one),
+		schemabuilder.FilterField(attr+"_plain", oneE),
 		schemabuilder.FilterField(attr+"_exp", one, schemabuilder.Expensive),
 		schemabuilder.BatchFilterField(attr+"_batch", many),
 		schemabuilder.BatchFilterFieldWithFallback(attr+"_fb", many, oneE, useBatch)}
